@@ -91,6 +91,10 @@ def signature_grid():
         fs = frozenset(x for k, x in enumerate(FEATS) if (f >> k) & 1)
         rows.append(("wishbone.Signature", {"addr_width": aw, "data_width": dw, "granularity": gran, "features": tuple(sorted(fs))},
                      lambda aw=aw, dw=dw, gran=gran, fs=fs: wishbone.Signature(addr_width=aw, data_width=dw, granularity=gran, features=fs)))
+        if gran == dw:
+            # the granularity may be left out: it then defaults to the data width
+            rows.append(("wishbone.Signature", {"addr_width": aw, "data_width": dw, "granularity": gran, "features": tuple(sorted(fs))},
+                         lambda aw=aw, dw=dw, fs=fs: wishbone.Signature(addr_width=aw, data_width=dw, features=fs)))
         if aw == 5 and (dw, gran) == (32, 8):
             # the same feature set in other spellings: Feature members, a list, a frozenset of strings
             for spell in (lambda fs: {wishbone.Feature(x) for x in fs}, lambda fs: sorted(fs), lambda fs: frozenset(str(x) for x in fs)):
@@ -137,6 +141,19 @@ def signature_checks():
             fails.append(("C20", f"{c1}: == is {s1 == s2} for parameters {p1} vs {p2}", f"eq:{c1}"))
         if (s2 == s1) != (p1 == p2):                       # == must not depend on the operand order
             fails.append(("C20", f"{c1}: == is {s2 == s1} for parameters {p2} vs {p1}", f"eq:{c1}"))
+    # a signature does not change when the caller goes on using (and changing) the collection it passed in
+    for fs0 in ({"err"}, {"lock", "cti"}, set()):
+        for conv in (lambda x: set(x), lambda x: {wishbone.Feature(f) for f in x}, lambda x: sorted(x)):
+            given = conv(fs0)
+            sig = wishbone.Signature(addr_width=4, data_width=16, granularity=8, features=given)
+            ref = wishbone.Signature(addr_width=4, data_width=16, granularity=8, features=frozenset(fs0))
+            before = (set(sig.members.keys()), set(str(getattr(f, "value", f)) for f in sig.features))
+            (given.update if isinstance(given, set) else given.extend)([wishbone.Feature("stall"), wishbone.Feature("bte")])
+            after = (set(sig.members.keys()), set(str(getattr(f, "value", f)) for f in sig.features))
+            stats["pairs"] += 1
+            if before != after or not (sig == ref) or not (ref == sig) or set(sig.create().signature.members.keys()) != before[0]:
+                fails.append(("C20", f"wishbone.Signature built from the {type(given).__name__} {sorted(fs0)} changed when the caller's collection "
+                                     f"was modified afterwards: members/features {before} -> {after}, == reference: {sig == ref}", "alias:wishbone.Signature"))
     for c, p, mk in rows:
         if not (mk() == mk()):
             fails.append(("C20", f"{c}{p}: two signatures with equal parameters compare unequal", f"eq-self:{c}"))
